@@ -570,7 +570,7 @@ def run_variant(variant, lines, driver, stats):
 
 
 def run(ctx):
-    proof_ok, proof = common.proof_status_all(ctx, "C16", ["gaps2_C16"])
+    proof_ok, proof = common.proof_status_all(ctx, "C16", ["gaps2_C16", "links"])
     harness = common.build_harness("density")
     driver = common.build_driver("density")
     lines = common.corpus("C16", ("HR ", "HC ", "SP "))
